@@ -54,6 +54,85 @@ impl BigUint {
 //@ end
 }
 
+impl BigUint {
+//@ extract src/biguint.rs :: impl BigUint :: const ZERO rules=R9,R13
+    exec const ZERO: Self /*+*/ensures Self::ZERO.data@.len() == 0 /*-*/{ BigUint { data: Vec::new() } }
+//@ end
+
+    // contract-only re-homing: methods of `impl Clone / Zero / One for BigUint` (external traits) as inherent methods
+//@ extract src/biguint.rs :: impl Clone for BigUint :: fn clone props=C04
+    fn clone(&self) -> /*+*/(r: /*-*/Self/*+*/)/*-*/
+//+{
+        ensures r.data@ == self.data@, r.v() == self.v(), r.wf() == self.wf()
+//+}
+    {
+        BigUint {
+            data: self.data.clone(),
+        }
+    }
+//@ end
+
+//@ extract src/biguint.rs :: impl Zero for BigUint :: fn zero props=C19
+    fn zero() -> /*+*/(r: /*-*/BigUint/*+*/)/*-*/
+//+{
+        ensures r.wf(), r.v() == 0
+//+}
+    {
+        Self::ZERO
+    }
+//@ end
+
+//@ extract src/biguint.rs :: impl Zero for BigUint :: fn set_zero props=C19
+    fn set_zero(&mut self)
+//+{
+        ensures final(self).wf(), final(self).v() == 0
+//+}
+    {
+        self.data.clear();
+    }
+//@ end
+
+//@ extract src/biguint.rs :: impl Zero for BigUint :: fn is_zero props=C19
+    fn is_zero(&self) -> /*+*/(r: /*-*/bool/*+*/)/*-*/
+//+{
+        ensures r == (self.data@.len() == 0), self.wf() ==> r == (self.v() == 0)
+//+}
+    {
+//+{
+        proof { if self.wf() { lemma_wf_zero(self.data@); } }
+//+}
+        self.data.is_empty()
+    }
+//@ end
+
+//@ extract src/biguint.rs :: impl One for BigUint :: fn one props=C19
+    fn one() -> /*+*/(r: /*-*/BigUint/*+*/)/*-*/
+//+{
+        ensures r.wf(), r.v() == 1
+//+}
+    {
+//+{
+        proof { lemma_val_single(1u64); }
+//+}
+        /*+*/let r = /*-*/BigUint { data: vec![1] }/*+*/; proof { assert(r.data@ =~= seq![1u64]); } r/*-*/
+    }
+//@ end
+
+//@ extract src/biguint.rs :: impl One for BigUint :: fn set_one props=C19
+    fn set_one(&mut self)
+//+{
+        ensures final(self).wf(), final(self).v() == 1
+//+}
+    {
+        self.data.clear();
+        self.data.push(1);
+//+{
+        proof { lemma_val_single(1u64); assert(self.data@ =~= seq![1u64]); }
+//+}
+    }
+//@ end
+}
+
 //@ extract src/biguint.rs :: fn biguint_from_vec props=C04,C09
 pub(crate) fn biguint_from_vec(digits: Vec<BigDigit>) -> /*+*/(r: /*-*/BigUint/*+*/)/*-*/
 //+{
